@@ -982,6 +982,22 @@ fn c12_gen(sc: &str, rng: &mut Rng, _t: Tier, _i: u64) -> AnyCase {
                     }
                 }
             }
+            if rng.chance(1, 400) {
+                // a pathologically long, repetitive "frame"
+                let unit: &[u8] = *rng.pick(&[&[0u8, 0, 1][..], &[0, 0, 0, 1], &[0], &[0xff], &[0x80], &[0x0a, 0x80]]);
+                let reps = *rng.pick(&[100_000usize, 200_000]);
+                let mut d = Vec::with_capacity(unit.len() * reps);
+                for _ in 0..reps {
+                    d.extend_from_slice(unit);
+                }
+                let pos = rng.usize(c.ops.len() + 1);
+                let op = match rng.below(3) {
+                    0 => Op::Video { pts: F(0.0), data: Hex(d), key: true, cc: false },
+                    1 => Op::EncVideo { data: Hex(d), dur_ms: 33, cc: false },
+                    _ => Op::Audio { pts: F(0.0), data: Hex(d) },
+                };
+                c.ops.insert(pos.min(c.ops.len()), op);
+            }
             if rng.chance(1, 12) {
                 // an ascending run of extreme timestamps over the video frames (each step legal for the API checks)
                 let ladder = [1.0248e14f64, 2.0496380e14, 2.04963821e14, 204_963_823_000_000.0, 204_963_823_040_000.0, 1e300, 1.7976931348623157e308];
@@ -1023,6 +1039,25 @@ fn c12_eval(sc: &str, case: &AnyCase, st: &mut RunStats, _t: Tier) -> Vec<Violat
             crate::frag::frag_panics("C12", c, &ex)
         }
         (_, AnyCase::Prog(c)) => {
+            let total: usize = c.ops.iter().filter_map(|o| o.data()).map(|d| d.0.len()).sum();
+            if total > 200_000 {
+                // long inputs on a 2 MiB stack (see stateless::eval)
+                let c2 = c.clone();
+                let h = std::thread::Builder::new().stack_size(2 << 20).spawn(move || {
+                    let mut st2 = RunStats::default();
+                    let (ex, _lm) = run_and_model(&c2, &mut st2);
+                    (oracle::panics("C12", &c2, &ex), st2.trace_hash)
+                });
+                match h.map(|h| h.join()) {
+                    Ok(Ok((v, th))) => {
+                        st.trace_hash = th;
+                        st.evaluations = c.ops.len().max(1) as u64;
+                        st.count("long_inputs_on_2MiB_stack", 1);
+                        return v;
+                    }
+                    _ => panic!("harness: could not run the long-input evaluation thread"),
+                }
+            }
             let (ex, _lm) = run_and_model(c, st);
             st.nontrivial = Some(abstract_prog(c, &ex, st));
             st.evaluations = c.ops.len().max(1) as u64;
